@@ -334,3 +334,46 @@ PROPS["C12"] = {
             thorough={"cases": 100000, "size": 200, "shards": 16}),
     ],
 }
+
+PROPS["C13"] = {
+    "level": "exploration",
+    "technique": "stateful + metamorphic property-based testing (rapidcheck) and exhaustive length sweeps: builder histories checked by getters, an independent parse of the raw bytes, the library's validator/decoder and a fresh-object comparison",
+    "rule": "cases = (payload class, history of 0..5 (thorough ..8) earlier setData / header writes with other lengths and contents, final "
+            "header values + data); exhaustive: every CAN / CAN-FD / LIN data length 0..255, Ethernet / analog 0..300 + boundaries up to "
+            "65529 / 65519, all string-length parities of the capture-module payload, stream-id lists of every parity; non-trivial when "
+            "the object held data of another length before, or the content has an odd-length list / padded string; distinct = distinct "
+            "serialized cases",
+    "assumptions": COMMON_ASSUMPTIONS + ["the CAN DLC code is asserted only for lengths that have one (0..8, 12, 16, 20, 24, 32, 48, 64)",
+                                         "data pointers passed to setData are non-null even for length 0"],
+    "level_text": "Generated builder histories: getters return exactly the data and lengths supplied, header fields are preserved, the raw "
+                  "bytes parse independently (NUL-terminated zero-padded even strings, zero pad after an odd stream-id list, exact vendor "
+                  "data, nothing left over), the library's own validator and decoder accept them, and the raw bytes equal those of a "
+                  "fresh object given only the final content.",
+    "level_note": "Trusted: harness/oracle/wire.h parsers (walkCm, walkIf, header parsers).",
+    "stages": [
+        pbt("length_sweeps", "pbt_C13", mode="enum", quick={}, thorough={}),
+        pbt("builder_histories", "pbt_C13", quick={"cases": 3000, "size": 100, "shards": 4},
+            thorough={"cases": 50000, "size": 200, "shards": 16}),
+    ],
+}
+
+PROPS["C14"] = {
+    "level": "exploration",
+    "technique": "property-based testing (rapidcheck) + exhaustive shape/relation/operation product: getter snapshots before/after copy, move and assignment, equality laws",
+    "rule": "cases = (domain Packet / ASAM payload / TECMP payload, source and target of every kind incl. the payload-less packet and "
+            "zero-length payloads, target relation independent / copy / copy with another payload type / self, operation copy-construct / "
+            "copy-assign / move-construct / move-assign incl. self-assignment and self-move-assignment), followed by mutation of either "
+            "side and destruction of the source; non-trivial when the target already held a payload, a length is zero, the source has no "
+            "payload, or the pair is equal-looking; distinct = distinct serialized cases",
+    "assumptions": COMMON_ASSUMPTIONS + ["moved-from state is not asserted (only that it can be destroyed)",
+                                         "packet equality is compared with field-by-field comparison only when both payloads are non-empty, as the statement says"],
+    "level_text": "Generated and exhaustively enumerated pairs: the result's snapshot (all header getters, segment type, counter, payload "
+                  "presence, type, length, bytes) equals the source's former snapshot whatever the target held; copies share no state "
+                  "(mutation and destruction under ASan); == is reflexive and symmetric, agrees with field-wise comparison, != is its negation.",
+    "level_note": "Needs the read-only hook Packet::verifHasPayload() to observe payload-less packets without undefined behaviour.",
+    "stages": [
+        pbt("shape_product", "pbt_C14", mode="enum", quick={}, thorough={}),
+        pbt("generated_pairs", "pbt_C14", quick={"cases": 5000, "size": 100, "shards": 4},
+            thorough={"cases": 100000, "size": 200, "shards": 16}),
+    ],
+}
